@@ -25,7 +25,7 @@ LEVEL_TEXT = ("The C09 scenario generator (random coastlines, jets with Courant 
               "checked by a python-side index monitor. Evidence reports the closest approach to each array edge that was actually observed.")
 LEVEL_NOTE = "numba's checker does not flag negative indices (they wrap); the shadow monitor covers those. A dying interpreter during a run counts as a violation."
 RULE = ("case = C09-style world/run with boundary-hugging releases. Non-trivial: some kernel call came within one cell of an array edge; distinct by case parameters.")
-MANDATORY = ["grid_with_more_than_2049_columns_or_rows_single_precision_forcing", "two_models_alive_and_stepped_in_turn", "warm_start_from_packed_positions", "second_run_on_same_files_larger_grid", "family_c09", "family_c14", "family_c10", "family_c08", "family_lonlat", "family_vinfo", "particles_exactly_on_level_depths", "trilinear_calls", "z2s_kernel_calls", "sample3D_nearest_calls", "within_one_cell_of_edge", "scheme_RK2", "scheme_RK4", "subgrid", "boundscheck_active",
+MANDATORY = ["subgrid_first_column_beyond_last_row", "grid_with_more_than_2049_columns_or_rows_single_precision_forcing", "two_models_alive_and_stepped_in_turn", "warm_start_from_packed_positions", "second_run_on_same_files_larger_grid", "family_c09", "family_c14", "family_c10", "family_c08", "family_lonlat", "family_vinfo", "particles_exactly_on_level_depths", "trilinear_calls", "z2s_kernel_calls", "sample3D_nearest_calls", "within_one_cell_of_edge", "scheme_RK2", "scheme_RK4", "subgrid", "boundscheck_active",
              "surface_or_bottom_particles", "diffusion_on"]
 ASSUMPTIONS = ["N >= 2 (with a single level no level pair exists)"]
 BOUNDSCHECK = True
@@ -44,6 +44,8 @@ def gen_cases(tier: str, seed: int) -> list[dict[str, Any]]:
             c["subgrid"] = [1, c["imax"] - 1, 1, c["jmax"] - 1]  # touches the full-grid limit
         if i % 4 == 1:
             c["subgrid"] = [int(rng.integers(2, 5)), c["imax"] - int(rng.integers(2, 5)), int(rng.integers(2, 5)), c["jmax"] - int(rng.integers(2, 5))]
+        if i % 4 == 2 and c["imax"] >= 19 and not c.get("tie"):
+            c["subgrid"] = [12, c["imax"] - 1, 2, 10]  # a subgrid that lies wholly to the right of the diagonal: its first column number exceeds its last row number
         sp = 0.95 * c["dx"] / c["dt"]
         ang = [0.0, np.pi / 2, np.pi, 3 * np.pi / 2][i % 4] + float(rng.uniform(-0.5, 0.5))
         c["flow"] = dict(kind="jet", u=sp * np.cos(ang), v=sp * np.sin(ang), shear=0.3, tmod=0.0, tfreq=0.0)
@@ -282,6 +284,7 @@ def run_case(case: dict[str, Any], wd: Path) -> dict[str, Any]:
     sit["boundscheck_active"] = int(os.environ.get("NUMBA_BOUNDSCHECK") == "1")
     sit[f"scheme_{case['scheme']}"] = 1
     sit["subgrid"] = int(case["subgrid"] is not None)
+    sit["subgrid_first_column_beyond_last_row"] = int(bool(case["subgrid"]) and case["subgrid"][0] >= case["subgrid"][3] - 1 and case["scheme"] in ("RK2", "RK4"))
     sit["grid_with_more_than_2049_columns_or_rows_single_precision_forcing"] = int(bool(case.get("wide")))
     sit["diffusion_on"] = int(case["diffusion"] > 0)
     sit["surface_or_bottom_particles"] = int(fam == "c09")
